@@ -2417,6 +2417,7 @@ class IndicatorSumConstraint(Functional):
         """Return the `proximal factory` of the functional."""
 
         domain = self.domain
+        sum_value = self.sum_value
 
         class ProximalSum(Operator):
             """Proximal operator."""
@@ -2428,7 +2429,7 @@ class IndicatorSumConstraint(Functional):
 
             def _call(self, x, out):
 
-                offset = 1 / x.size * (self.sum_value - x.ufuncs.sum())
+                offset = 1 / x.size * (sum_value - x.ufuncs.sum())
                 out.assign(x)
                 out += offset
 
